@@ -46,6 +46,18 @@ def natPair? (j : Json) : Option (Nat × Nat) :=
 
 def bytesOf (s : String) : Bytes := s.toUTF8.toList.map (·.toNat)
 
+def hexVal (c : Char) : Nat :=
+  if '0' ≤ c ∧ c ≤ '9' then c.toNat - '0'.toNat
+  else if 'a' ≤ c ∧ c ≤ 'f' then c.toNat - 'a'.toNat + 10
+  else 0
+
+/-- payload, table keys and literal prefix / suffix arrive as hex strings (bytes, not characters) -/
+def hexBytes (s : String) : Bytes :=
+  let rec go : List Char → Bytes
+    | a :: b :: rest => (hexVal a * 16 + hexVal b) :: go rest
+    | _ => []
+  go s.toList
+
 structure Rx where
   facts : Facts
   table : List (Bytes × Option (Nat × Nat))
@@ -64,14 +76,14 @@ def rx? (j : Json) : Option Rx := do
     let b ← str? e "b"
     let s ← int? e "s"
     let en ← int? e "e"
-    pure (bytesOf b, if en < 0 then none else some (s.toNat, en.toNat)))
-  pure { facts := { pre := bytesOf p, suf := bytesOf x, minLen := mn, maxLen := mx, ctx := bool j "ctx" }, table := t }
+    pure (hexBytes b, if en < 0 then none else some (s.toNat, en.toNat)))
+  pure { facts := { pre := hexBytes p, suf := hexBytes x, minLen := mn, maxLen := mx, ctx := bool j "ctx" }, table := t }
 
 def src? (j : Json) : Option Source := do
   let c ← str? j "c"
   let s ← str? j "s"
   let bl ← (arr j "bl").mapM natPair?
-  pure ⟨bytesOf c, bytesOf s, bl⟩
+  pure ⟨hexBytes c, hexBytes s, bl⟩
 
 def cond? (rxs : Array Rx) (j : Json) : Option Cond := do
   let els ← (arr j "els").mapM (fun e => do
